@@ -137,6 +137,7 @@ PROPS = {
         theorems=["Exmex.C01.flat_eval_eq_denote", "Exmex.C01.parseWoCompile_eval_eq_denote", "Exmex.C01.parse_eval_eq_denote",
                   "Exmex.C01.checkPre_toks", "Exmex.C01.findVars_toks", "Exmex.C14.evalNumbers_any_order",
                   "Exmex.C13.tokenize_render_spaced", "Exmex.C13.parse_spaced_eval_eq_denote"],
+        level_text=("kernel-checked: parse_eval_eq_denote / parseWoCompile_eval_eq_denote / flat_eval_eq_denote - for every operator table (priorities 0..=99, flagged operators associative), every interpretation (the parser is generic), every well-formed expression and every text whose token stream is the expression's canonical token stream, parse succeeds, lists the documented variables and eval = the documented value (parentheses first, unary tighter and right-to-left, descending priority, left-to-right among equals; re-grouping of flagged operators only where invisible for associative operators); evalNumbers_any_order for any number of operands (both bit trackers); text level: tokenize_render_spaced / parse_spaced_eval_eq_denote - for the rendering with a space before every token the statement holds from the TEXT on with no run-time hypothesis; other renderings: the tokens are checked per case at run time"),
         rule="random operator tables x random well-formed chains x random renderings; non-trivial = at least two binary operators; distinct by hash of the request (table, text)",
         kinds=[dict(kind="flat", quick=24000, thorough=1200000,
                     corr=["wo", "vars", "nwo", "toksimpl"], oracle=[("wo_nf", "spec_nf"), ("vars", "svars"), ("toksimpl", "stoks")],
@@ -148,6 +149,7 @@ PROPS = {
         theorems=["Exmex.C02.evalCloning_eq_split", "Exmex.C02.compile_sound", "Exmex.C02.compile_twice_sound", "Exmex.C01.parse_eval_eq_denote",
                   "Exmex.C02.parse_fold_invisible_any", "Exmex.C02.parse_accepts_iff_wo",
                   "Exmex.C02.deep_new_sound", "Exmex.C02.deep_compile_sound", "Exmex.C03.deep_parse_eval_eq_denote"],
+        level_text=("kernel-checked: compile_sound / compile_twice_sound (flat folding and re-folding preserve the value under the structural invariant), deep_compile_sound / deep_new_sound / liftNodes_sound (deep form), parse_eval_eq_denote and deep_parse_eval_eq_denote (folded flat, unfolded flat, re-folded and deep all equal the documented value for well-formed expressions); parse_fold_invisible_any / parse_accepts_iff_wo: for EVERY text the flat parser accepts - also sloppy ones - unfolded, folded and re-folded expressions list the same variables and agree at every assignment"),
         rule="literal-rich random chains (60-90% literals, constants, unary over literals) x random tables: parse, parse_wo_compile, compile() once more, DeepEx::parse, all evaluated on symbolic variables and compared with the documented value modulo re-association of flagged operators; node counts compared with the model (folding must happen where the model folds); non-trivial = at least two binary operators; distinct by request hash",
         kinds=[dict(kind="flat", quick=20000, thorough=1000000, args=["lits"],
                     corr=["wo", "nwo", "c", "nc", "rc", "vars"],
@@ -219,6 +221,7 @@ PROPS = {
         modules=["Exmex.Props.C04", "Exmex.Props.C10", "Exmex.Props.C01Parse"],
         theorems=["Exmex.C10.resetVars_sound", "Exmex.C10.operateBin_sound", "Exmex.C01.findVars_toks", "Exmex.C04.findVars_sorted", "Exmex.C04.mem_findVars", "Exmex.C04.flat_eval_wrong_arity",
                   "Exmex.C04.flat_evalRelaxed_surplus", "Exmex.C04.deep_eval_wrong_arity", "Exmex.C04.braced_is_var"],
+        level_text=("kernel-checked: findVars_sorted / mem_findVars / findVars_toks (the variable list is the sorted duplicate-free list of the names in the text; braces make any text a name), arity theorems for eval / eval_relaxed / consuming evaluation, flat and deep (wrong length is an error, surplus values are ignored by the relaxed form), resetVars_sound / operateBin_sound (derived expressions list the sorted union and bind by name); binding of the k-th value to the k-th name through every entry point is judged at run time"),
         rule="expressions with 0..40 variables (bare ASCII/Greek identifiers, braced arbitrary text incl. spaces, digits, emoji, operator look-alikes), every slice length 0..n+3 on eval / eval_relaxed / eval_vec / eval_iter, flat and deep; with the exact length all entry points must return the value of eval (binding of the k-th value to the k-th name, also for repeated variables in the consuming entry points); plus the flat generator for the variable list; non-trivial = at least 2 distinct variables; distinct by request hash",
         kinds=[dict(kind="vars", quick=6000, thorough=150000, corr=["vars", "dvars", "ar"],
                     oracle=[("vars", "svars"), ("dvars", "svars"), ("ar", "sar")], oracle_const=[("bind", "ok")], guards=["render", "toks"],
@@ -377,6 +380,7 @@ PROPS = {
         modules=["Exmex.Props.C16", "Exmex.Props.C16Table", "Exmex.Props.C01Parse"],
         theorems=["Exmex.C16.val_table_matches_doc", "Exmex.C16.val_bin_names", "Exmex.C16.val_un_names", "Exmex.C16.val_flagged", "Exmex.C01.parse_eval_eq_denote", "Exmex.C16.int_add", "Exmex.C16.int_div", "Exmex.C16.int_rem", "Exmex.C16.promote_left", "Exmex.C16.promote_right",
                   "Exmex.C16.eq_int_float", "Exmex.C16.eq_mismatch", "Exmex.C16.ord_mismatch", "Exmex.C16.error_absorbs", "Exmex.C16.unary_error", "Exmex.C16.if_else"],
+        level_text=("kernel-checked over abstract floats: the typing table of the value type (int op int stays int with checked overflow, int/float promotes, comparisons across kinds, error absorption, if/else selection, bit operators on ints only ...: 17 table theorems plus val_table_matches_doc over the operator table extracted from the running library: names, priorities, flags); every operator on every pair of kinds and boundary values is compared with the model bit by bit at run time"),
         rule="every unary operator of ValOpsFactory x every catalogue value and every binary operator x every ordered pair of catalogue values (17 ints incl. MIN/MAX/0/-1, 23 floats incl. NaN/inf/-0.0/subnormal/huge/int-range boundaries, bools, 7 arrays of length 0..5, none, error): 72012 applications, exhaustive; plus random operands; results compared by kind and bit pattern (NaN payload ignored, libm-backed functions to 9 digits); non-trivial = binary application; distinct by request hash",
         kinds=[dict(kind="valopx", quick=72012, thorough=72012, corr=["r"], oracle=[("r", "r")], norm=val_norm, nontrivial=lambda req, A, B: req.split("\t")[1] == "bin"),
                dict(kind="valop", quick=20000, thorough=1000000, corr=["r"], oracle=[("r", "r")], norm=val_norm, nontrivial=lambda req, A, B: req.split("\t")[1] == "bin"),
@@ -386,6 +390,7 @@ PROPS = {
         level="proof",
         modules=["Exmex.Props.C17"],
         theorems=["Exmex.C17.valBin_total", "Exmex.C17.valUn_total", "Exmex.C17.neg_min", "Exmex.C17.abs_min", "Exmex.C17.rem_min_neg_one", "Exmex.C17.to_int_invalid"],
+        level_text=("kernel-checked: valBin_total / valUn_total - every binary and unary operator of the value type returns a value (possibly Val::Error) for every pair of operands over abstract floats: each trap site of the code (overflowing arithmetic, MIN / -1, MIN % -1, -MIN, abs(MIN), shifts, casts, array index) is a panic branch of the model and none is reachable; the harness runs with overflow checks on"),
         rule="the C16 catalogue run under catch_unwind: no operator of the value table may panic for any operand (72012 applications exhaustive + random operands); the same values through parse_val literals folded at parse time and through variables; non-trivial = every application; distinct by request hash",
         kinds=[dict(kind="valopx", quick=72012, thorough=72012, corr=["r"], oracle_const=[("r", "(?!PANIC).*")], norm=val_norm, nontrivial=always),
                dict(kind="valop", quick=20000, thorough=1000000, corr=["r"], oracle_const=[("r", "(?!PANIC).*")], norm=val_norm, nontrivial=always),
@@ -399,6 +404,7 @@ PROPS = {
                   "Exmex.C07.unknown_rejected", "Exmex.C07.flat_count", "Exmex.C07.lexLoop_balance",
                   "Exmex.C07.unbalanced_text_rejected", "Exmex.C07.accepted_balanced", "Exmex.C07.dipped_iff",
                   "Exmex.BalanceCex.repaired₁", "Exmex.BalanceCex.repaired₂", "Exmex.BalanceCex.nonempty_needed"],
+        level_text=("kernel-checked: unbalanced_text_rejected / accepted_balanced - EVERY text whose parentheses (outside braces) do not balance is rejected by all three parsers (tables with non-empty, paren-free operator names); blank_rejected, trailing_operator_rejected, unknown_rejected, adjacent_operands_rejected, flat_count (operand count = binary operator count + 1 for whatever is accepted), flat/deep_rejects_frontEnd; the proof attempt of the first statement found defect D12 (repaired)"),
         rule="well-formed renderings damaged at one point (delete/insert one parenthesis, append a binary operator, extra operand beside an operand, illegal character, blank text) x random tables; FlatEx::parse, parse_wo_compile, DeepEx::parse must all reject; non-trivial = damaged text of at least 3 characters; distinct by request hash",
         kinds=[dict(kind="damage", quick=30000, thorough=800000, corr=["r"], oracle_const=[("r", "eee")],
                     nontrivial=lambda req, A, B: len(req.split("\t")[3]) >= 6)],
@@ -407,6 +413,7 @@ PROPS = {
         level="proof",
         modules=["Exmex.Props.C08", "Exmex.Props.C08Any"],
         theorems=["Exmex.C08.call_any", "Exmex.C08.infix_any", "Exmex.C08.skip_of_balanced", "Exmex.C08.call_tokens", "Exmex.C08.call_tokens_dipped", "Exmex.C08.feed_comma_dipped", "Exmex.C08.call_tokens_init", "Exmex.C08.lexStep_comma"],
+        level_text=("kernel-checked: call_tokens - the raw tokens of any well-formed expression with calls `op ( a , b )` at any nesting and position are rewritten to exactly the canonical tokens `( ( a ) op ( b ) )`, restoring depth and the stack of owed parentheses; call_any / infix_any - the same for ARBITRARY closed argument token sequences; lexStep_open/close/comma tie the token-level machine to the character-level tokenizer; with C01 the value is that of the infix form"),
         rule="expressions in which 25-60% of the operand positions are calls op(a, b) (alphabetic and symbolic binary-only operators), rendered in call form, nested in first and second arguments, inside parentheses and under unary operators, depth up to 6; the implementation's token stream must equal the canonical tokens ((a) op (b)) and the value the documented one; non-trivial = at least one call and two operators; distinct by request hash",
         kinds=[dict(kind="flat", quick=20000, thorough=500000, args=["calls"],
                     corr=["toksimpl", "wo", "c", "vars"], oracle=[("toksimpl", "stoks"), ("wo_nf", "spec_nf"), ("c_nf", "spec_nf")],
@@ -419,6 +426,7 @@ PROPS = {
         theorems=["Exmex.C13.isNumericText_spec", "Exmex.C13.findOps_sound", "Exmex.C13.findOps_longest",
                   "Exmex.C13.name_continued_not_matched", "Exmex.C13.exact_name_matched", "Exmex.C13.sign_role", "Exmex.C13.brace_var",
                   "Exmex.C13.tokenize_render_spaced", "Exmex.C13.tokText_braced", "Exmex.C13.tokText_lit", "Exmex.C13.tokText_op", "Exmex.C13.tokText_ident"],
+        level_text=("kernel-checked: findOps_sound / findOps_longest (longest eligible name wins, for every table), name_continued_not_matched / exact_name_matched (identifier continuation), sign_role (a sign is unary exactly at the start or after an operator or opening parenthesis), isNumericText_spec (digits with at most one dot), brace_var (anything in braces is one variable), tokenize_render_spaced and the tokText lemmas (character level); the implementation is additionally judged against a reference tokenizer written from the statement"),
         rule="token streams of tokenize_and_analyze (hook) vs the Lean tokenizer and vs a reference tokenizer written in the harness from the statement (longest eligible name, identifier continuation, literal and brace rules; commas and unclosed braces not judged): operator/constant names extended and truncated by identifier and non-identifier characters in several left contexts, sign chains, literal spellings over {0,1,.}, braces with arbitrary content, call fragments, token soup; random tables with prefix-related names; plus well-formed renderings (flat kind) whose token stream must equal the canonical tokens of the chain; non-trivial = text of at least 2 characters; distinct by request hash",
         kinds=[dict(kind="lex", quick=30000, thorough=600000, corr=["toks"], oracle=[], oracle_const=[("ref", "ok")], nontrivial=lambda req, A, B: len(req.split("\t")[3]) >= 4),
                dict(kind="flat", quick=8000, thorough=200000, corr=["wo", "vars"], oracle=[("toksimpl", "stoks")],
@@ -428,6 +436,7 @@ PROPS = {
         level="proof",
         modules=["Exmex.Props.C15"],
         theorems=["Exmex.C15.consumeNodes_spec", "Exmex.C15.consuming_eq_cloning"],
+        level_text=("kernel-checked: consumeNodes_spec / consuming_eq_cloning - for every flat expression and every value slice the consuming evaluation (eval_vec / eval_iter) returns the value of the borrowing one and clones each variable exactly (occurrences - 1) times; flat_eval_no_panic covers whatever the parsers accept"),
         rule="flat generator (random tables, chains with repeated variables, folded and unfolded); eval_vec on a clone-counting data type whose Default is a visible hole; non-trivial = at least two binary operators; distinct by request hash",
         kinds=[dict(kind="flat", quick=24000, thorough=600000, args=["vars_repeat"],
                     corr=["cons", "c", "vars"], oracle=[("cons_nf", "spec_nf"), ("wcons_nf", "spec_nf"), ("witer_nf", "spec_nf"), ("clones", "sclones")],
@@ -437,6 +446,7 @@ PROPS = {
         level="proof",
         modules=["Exmex.Props.C14"],
         theorems=["Exmex.C14.evalBinary_word_any_order", "Exmex.C14.evalBinary_words_any_order", "Exmex.C14.evalNumbers_any_order"],
+        level_text=("kernel-checked: evalBinary_word_any_order / evalBinary_words_any_order / evalNumbers_any_order - for every duplicate-free order of the operators and every number of operands, the single-word and the multi-word bit tracker find exactly the neighbouring unconsumed operands (refinement of the bit trackers to a list of flags); the choice of tracker by the public evaluation path is exercised at the word boundaries at run time"),
         rule="eval_binary through the hook: all 46233 orders of 1..8 operators (exhaustive), structured and random orders for 3..1000 operands incl. both sides of 64/128/192/256; NumberTracker (usize, [usize] of 1..5 words) driven with random legal get_previous/get_next/ignore sequences; non-trivial = at least 3 operands / at least one query; distinct by request hash",
         kinds=[dict(kind="flat", quick=3000, thorough=60000, args=["sizes"], corr=["wo", "vars"],
                     oracle=[("wo_nf", "spec_nf"), ("c_nf", "spec_nf"), ("wcons_nf", "spec_nf")], guards=["render", "toks"], nontrivial=flat_nontrivial),
